@@ -7,7 +7,7 @@ import math
 
 import numpy as np
 
-GEOS = ("lin", "tight", "log", "mixed", "unb", "log2", "lin2")
+GEOS = ("lin", "tight", "log", "mixed", "unb", "log2", "lin2", "mixunb")
 MODES = ("det", "auto", "decl", "spec")
 ANS = ("F", "I", "S", "E")  # default first
 NOISE = ("alt", "LOW", "HIGH")
@@ -25,6 +25,8 @@ def geometry(geo, D):
         g = geo
         if geo == "mixed":
             g = "log" if i == 0 else "lin"
+        if geo == "mixunb":   # a log-scaled variable next to variables with infinite hard bounds
+            g = "log2" if i == 0 else "unb"
         if g == "lin":
             lb[i], ub[i], plb[i], pub[i] = -5.0, 5.0, -2.0, 2.0
         elif g == "tight":
@@ -52,7 +54,7 @@ def start_point(x0kind, geo, D):
         return np.array(x0kind, float).reshape(1, D)
     x = np.empty(D)
     base_lin = [1.0, -0.5, 0.75, 0.25, -1.25]
-    base_log = [5.0, 0.5, 20.0, 2.0, 0.05] if geo != "log2" else [0.5, 0.3, 2.0, 0.7, 0.2]
+    base_log = [5.0, 0.5, 20.0, 2.0, 0.05] if geo not in ("log2", "mixunb") else [0.5, 0.3, 2.0, 0.7, 0.2]
     for i in range(D):
         if x0kind == "in":
             x[i] = base_log[i % 5] if logc[i] else base_lin[i % 5]
@@ -60,6 +62,15 @@ def start_point(x0kind, geo, D):
             x[i] = lb[i] if np.isfinite(lb[i]) else base_lin[i % 5]
         elif x0kind == "ub":
             x[i] = ub[i] if np.isfinite(ub[i]) else base_lin[i % 5]
+        elif x0kind in ("near_ub", "near_lb", "near_ub3", "near_lb3"):
+            # just beyond the 0.1% margin inside which a start is moved (0.12% / 0.3% of the range away from the bound)
+            f = 0.0012 if not x0kind.endswith("3") else 0.003
+            if not (np.isfinite(lb[i]) and np.isfinite(ub[i])):
+                x[i] = base_lin[i % 5]
+            elif "ub" in x0kind:
+                x[i] = ub[i] - f * (ub[i] - lb[i])
+            else:
+                x[i] = lb[i] + f * (ub[i] - lb[i])
         else:
             raise ValueError(x0kind)
     return x.reshape(1, D)
@@ -102,6 +113,8 @@ def geo_value(kind, geo, D, x):
         return 1e8 * geo_value("sphere_in", geo, D, x)
     if kind == "sphere_small":
         return 1e-8 * geo_value("sphere_in", geo, D, x)
+    if kind == "sphere_tiny":   # value differences far below tol_noise (2.2e-19 by default)
+        return 1e-21 * geo_value("sphere_in", geo, D, x)
     lb, ub, plb, pub, logc = geometry(geo, D)
     z = to_z(x, logc)[0]
     c = landscape_centre(kind, geo, D)
